@@ -121,6 +121,8 @@ pub struct Client {
     pub queued_props: HashMap<usize, Vec<usize>>,
     pub restarts: u32,
     pub rollbacks_seen: usize,
+    /// value of `offers` at the most recent rollback (0 = never)
+    pub last_rollback_seq: usize,
     /// log indices whose delivery rolled the group back and was then refused
     pub rollback_then_refused: Vec<usize>,
 }
@@ -204,6 +206,7 @@ impl Client {
             queued_props: HashMap::new(),
             restarts: 0,
             rollbacks_seen: 0,
+            last_rollback_seq: 0,
             rollback_then_refused: vec![],
         }
     }
@@ -255,6 +258,10 @@ impl Client {
 
     pub fn fp(&self, gid: &GroupId) -> Fp {
         with_mdk!(self.mdk, m => fp::fingerprint(m, gid))
+    }
+
+    pub fn processed_at_view(&self, gid: &GroupId) -> String {
+        with_mdk!(self.mdk, m => fp::processed_at_view(m, gid))
     }
 
     pub fn remove_files(&self) {
